@@ -148,7 +148,9 @@ double est(const Basic &b, const map_basic_basic *m = nullptr, int depth = 0)
         mx = std::max(mx, est(*a, m, depth + 1));
     if (is_a<Gamma>(b) || is_a<LogGamma>(b) || is_a<Beta>(b) || is_a<LowerGamma>(b) || is_a<UpperGamma>(b)
         || is_a<PolyGamma>(b) || is_a<Zeta>(b) || is_a<Dirichlet_eta>(b)) {
-        if (mx > 10)
+        // gamma & co. of numbers: factorial growth, and gamma_multiple_2 (functions.cpp) multiplies odd
+        // numbers in an `int` that overflows from gamma(23/2) on (a C08 finding): keep arguments small
+        if (mx > 4)
             return SAT;
     }
     return std::min(SAT, mx + 8);
